@@ -240,6 +240,7 @@ func (e *env) command(c *cmd, echoTimes int) {
 		e.must(r)
 
 		// a client DELETE keeps the subscription (LSUB shows the name \Noselect): nothing to note in m.unsub
+		m.delSubs[box.name] = box.rid
 		m.dropBox(box)
 
 		if e.actBox == box {
